@@ -1125,20 +1125,19 @@ impl<'h> Interp<'h> {
         let tid = pool_id(id);
         let from = peer(from);
         let bytes = response_bytes(tid, error, auth, fp, content);
-        let mut expect_deliver = match self.model.outstanding.get(&tid) {
+        let expect_deliver = match self.model.outstanding.get(&tid) {
             None => None,
             Some(tx) => Some(!tx.had_integrity || self.model.remote.as_ref().map(|c| ref_validates(&bytes, &c.key())).unwrap_or(false)),
         };
-        // Whether the response's integrity validates is decided by the reference HMAC; if the library's own
-        // validate_integrity disagrees with it on this very response, the fault lies in the message layer
-        // (C04), not in the agent: the agent is then judged against the library's verdict.
+        // Whether the response's integrity validates is decided by the independent HMAC, as C07 states
+        // it for what the agent delivers. (When the library's own validate_integrity disagrees with
+        // it on this very response, the message layer is at fault as well - C04 - which is noted.)
         if let (Some(tx), Some(c)) = (self.model.outstanding.get(&tid), self.model.remote.as_ref()) {
             if tx.had_integrity {
                 if let Ok(m) = Message::from_bytes(&bytes) {
                     let lib = m.validate_integrity(&c.to_lib()).is_ok();
                     if Some(lib) != expect_deliver {
                         self.sum.lib_validation_disagrees += 1;
-                        expect_deliver = Some(lib);
                     }
                 }
             }
